@@ -457,6 +457,22 @@ def run_one(seed, preset=None, tier="quick", want_case=False):
                     if not resp.get("errors") or (resp.get("data") is not None and label.startswith("schema") and resp["data"].get("__schema") is not None):
                         viol.append(V("hidden_schema_introspected", "[%s] schema marked @nonIntrospectable answered %s: %r" % (
                             mode, label, repr(resp)[:300])))
+                    # every refusal is reported where THIS request asked: a path starting at one of its own
+                    # response keys, a location pointing at that key in its own text, no path twice
+                    lines_ = dict(queries)[label].splitlines()
+                    paths_ = []
+                    for e_ in resp.get("errors") or []:
+                        p_ = e_.get("path")
+                        if not p_:
+                            continue
+                        paths_.append(tuple(p_))
+                        at_ = [lines_[l_["line"] - 1][l_["column"] - 1:] if 0 < l_["line"] <= len(lines_) else "" for l_ in e_.get("locations") or []]
+                        if at_ and not any(a_.startswith(str(p_[0])) for a_ in at_):
+                            viol.append(V("hidden_schema_error_misplaced", "[%s] %s: the refusal reported at path %r has locations %r, where the "
+                                          "request reads %r" % (mode, label, p_, e_.get("locations"), [a_[:20] for a_ in at_])))
+                            break
+                    if len(set(paths_)) != len(paths_):
+                        viol.append(V("hidden_schema_error_misplaced", "[%s] %s: several refusals carry one path: %r" % (mode, label, sorted(paths_)[:6])))
                 continue
             for incl, slabel, tlabel in ((True, "schema_all", "types_all"), (False, "schema_nodep", "types_nodep")):
                 resp = results[(mode, slabel)]
